@@ -33,7 +33,7 @@ type SimSpec struct {
 
 func (s SimSpec) extra() string {
 	if s.Module == "MCIavlStore" {
-		return s.ExtraConst + "  FixLvfoLabel = TRUE\n"
+		return s.ExtraConst + "  FixLvfoLabel = TRUE\n  Exhaustive = FALSE\n"
 	}
 	return s.ExtraConst
 }
@@ -76,6 +76,9 @@ type BehavCheck struct {
 	Seed       int64
 	Mc         []McSpec
 	Sim        SimSpec
+	// ShortNum > 0: a second batch of short behaviours (depth ShortD) per simulation process, so that
+	// what needs a particular start of a history (empty store, first commit, first open) is hit often
+	ShortNum, ShortD int
 	Classes    exec.Classes
 	Extra      func(e *exec.Executor, stepIdx int, s *model.Step) *exec.Violation
 	ConfigsPer int // configurations per behaviour
@@ -195,6 +198,16 @@ func (c *BehavCheck) Run() int {
 		return fail(2, "INCONCLUSIVE: "+err.Error())
 	}
 	transitions += simGenerated
+	if c.ShortNum > 0 {
+		short := c.Sim
+		short.Num, short.D = c.ShortNum, c.ShortD
+		sb, sg, err := GenerateBehaviours(short, c.Seed+7777)
+		if err != nil {
+			return fail(2, "INCONCLUSIVE: "+err.Error())
+		}
+		transitions += sg
+		behs = append(behs, sb...)
+	}
 	// 3. replay
 	rng := rand.New(rand.NewSource(c.Seed))
 	type job struct {
@@ -247,7 +260,7 @@ func (c *BehavCheck) Run() int {
 	toleratedObs := map[string]int{}
 	knownSeen := map[string]string{}
 	var violations []string
-	replayDir := filepath.Join(VerifDir, "evidence", "replays")
+	replayDir := filepath.Join(OutDir, "evidence", "replays")
 	if old, _ := filepath.Glob(filepath.Join(replayDir, c.ID+"-*.json")); len(old) > 0 {
 		for _, f := range old {
 			_ = os.Remove(f)
